@@ -31,6 +31,15 @@ CHECKS = {
     },
 }
 
+ENUM_NOTE = ("Trusted base: the independent reference written in the harness, Go's compiler/runtime; scope is the stated alphabet and bounds "
+             "(small-scope hypothesis), nothing is sampled.")
+
+CHECKS["C09"] = {
+    "script": "c09.py", "category": "exploration", "engine": "enum",
+    "technique": "bounded-exhaustive enumeration of operation sequences x reader behaviours (deviation-bounded environment scripts) on the real codec against a reference decoder",
+    "text": "All Data/Pad sequences of length <=3 over every prefix-size boundary x 5 extreme reader strategies x every reader script with <=2 deviations (short/zero-length/half reads, EOF attached); every truncation point; all byte strings <=4 over 12 boundary bytes; WritePadding(n) for all n<=70000; MaxDataForSize(n) for all n<=2^20+16; allocation bound.",
+    "design_ref": "§3 C09", "note": ENUM_NOTE,
+}
 CHECKS["C08"] = {
     "script": "c08.py", "category": "exploration", "engine": "enum",
     "technique": "bounded-exhaustive enumeration of SDP documents from a grammar on the real stripping code against an independent net/netip classifier",
